@@ -1,2 +1,40 @@
 (** C17 — obligations over the facts regenerated from /repo (Gen/C17Facts.v). *)
-Require Import Nib.C17.AnteFacts Nib.C17.Model Nib.C17.Current.
+From Coq Require Import List Bool ZArith String.
+Import ListNotations.
+Require Import Nib.C17.AnteFacts Nib.C17.MsgTree Nib.C17.Model Nib.C17.Spec Nib.C17.Proofs Nib.C17.Property.
+Require Import Nib.Gen.C17Facts Nib.C17.Current.
+
+(** The commission decorator is installed in the non-EVM ante chain (every decorator of the chain runs
+    before the message router), checks MsgCreateValidator.Commission.Rate and MsgEditValidator.CommissionRate
+    against MAX_COMMISSION() <= 0.25 with GT/GTE, recurses into MsgExec at any depth; the wasm message
+    handler applies the same check; the EVM chain admits MsgEthereumTx only. *)
+Theorem C17_current_cfg_ok : cfg_okb current_cfg = true.
+Proof. vm_compute. reflexivity. Qed.
+
+(** Routing by extension option: none -> non-EVM chain, the EVM option -> EVM chain, anything else -> reject. *)
+Theorem C17_current_routing :
+  route_of ext_switch NoExt = RouteNonEVM /\ route_of ext_switch EvmExt = RouteEVM /\
+  route_of ext_switch OtherExt = RouteReject /\ x_default ext_switch = ArmReject.
+Proof. vm_compute. repeat split; reflexivity. Qed.
+
+(** ValidateBasic, the signature decorators and the commission decorator are all present in the non-EVM chain. *)
+Theorem C17_current_chain_guards :
+  mem N_COMMISSION nonevm_chain = true /\ mem N_VALIDATE_BASIC nonevm_chain = true /\
+  mem N_SIG_VERIFY nonevm_chain = true /\ mem N_SET_PUBKEY nonevm_chain = true /\
+  mem N_ETH_VALIDATE_BASIC evm_chain = true.
+Proof. vm_compute. repeat split; reflexivity. Qed.
+
+Theorem C17_holds_for_current_tree :
+  forall (w : world) (s0 : st) (h : list event),
+    ica_safe w -> cap_ok s0 -> gov_trusted current_cfg h -> cap_ok (run_history current_cfg w s0 h).
+Proof.
+  intros w s0 h. apply C17_cap_partial. apply C17_cfg_checker_sound. exact C17_current_cfg_ok.
+Qed.
+Print Assumptions C17_holds_for_current_tree.
+
+Theorem C17_no_tx_sets_rate_above_cap_on_current_tree :
+  forall (w : world) (s : st) (x : tx), ica_safe w -> changed_capped s (fst (deliver current_cfg w s x)).
+Proof.
+  intros w s x. apply C17_no_tx_sets_rate_above_cap. apply C17_cfg_checker_sound. exact C17_current_cfg_ok.
+Qed.
+Print Assumptions C17_no_tx_sets_rate_above_cap_on_current_tree.
